@@ -10,7 +10,7 @@ mkdir -p $OUT
 cp $SRC/patch$N.diff $OUT/patch.diff
 cp $SRC/demo$N.py $OUT/demo.py
 git -C /repo worktree remove --force $WT >/dev/null 2>&1
-git -C /repo worktree add --detach $WT HEAD >/dev/null 2>&1 || { echo "worktree failed"; exit 2; }
+git -C /repo worktree add --detach $WT ${BASE:-HEAD} >/dev/null 2>&1 || { echo "worktree failed"; exit 2; }
 cd $WT
 {
 echo "== demo on clean tree"
